@@ -1,6 +1,7 @@
 """exploration tool for the malformed-tree stream of C01:  c01_malformed.py <n> <seed> [dumpfile]"""
 import sys, json, random, collections
-sys.path.insert(0, '/verif/harness'); sys.path.insert(0, '/repo')
+import os
+sys.path.insert(0, '/verif/harness'); sys.path.insert(0, os.environ.get('VERIF_REPO', '/repo'))
 import common, cimproto, c01mal
 import importlib.util
 spec = importlib.util.spec_from_file_location('chk', '/verif/harness/c01.py'); c01 = importlib.util.module_from_spec(spec); sys.modules['chk'] = c01; spec.loader.exec_module(c01)
